@@ -92,7 +92,7 @@ def hub(listener, P, state, timeout, delay_rng):
                 delay_rng.shuffle(order)
             for r in order:
                 if delay_rng is not None:
-                    time.sleep(delay_rng.random() * 0.01)
+                    time.sleep(delay_rng.random() * 0.003)
                 conns[r].send(("ok", out[r]))
             pending = {}
             last_progress = time.time()
